@@ -16,7 +16,7 @@ correspondence check of this property on the real tools (see DESIGN.md).
 -/
 namespace Pff.Ecc
 
-open Pff.Layout
+open Pff.Layout Pff.Ecc.B
 
 /-- block `b` (assembled from the damaged inputs) is handled correctly w.r.t. the original file -/
 def BlockOK (O : Ops) (fast : Bool) (orig : Bytes) (b : AsmBlock) : Prop :=
@@ -35,7 +35,23 @@ theorem C01_whole_file_partial (O : Ops) (fast : Bool) (thr hashLen mbs : Nat) (
     (∀ out, (correctWholeFile O fast thr kOf hashLen mbs damaged trackD).output = some out → out = orig) ∧
     ((correctWholeFile O fast thr kOf hashLen mbs damaged trackD).corrupted = true →
       (correctWholeFile O fast thr kOf hashLen mbs damaged trackD).complete = true) := by
-  sorry
+  obtain ⟨h1, h2⟩ := correctWholeFile_ok O fast thr hashLen mbs kOf orig damaged trackD hlen hcover
+    (fun b hb => hok b hb)
+  cases hany : (assemble kOf hashLen mbs damaged trackD (damaged.length + 1) 0 0).any
+      (needsRepair O fast) with
+  | true =>
+    rw [h1 hany]
+    refine ⟨fun _ => rfl, ?_, fun _ => rfl⟩
+    intro out ho
+    exact (Option.some.inj ho).symm
+  | false =>
+    obtain ⟨hr, he⟩ := h2 hany
+    rw [hr]
+    refine ⟨fun hne => absurd he hne, ?_, ?_⟩
+    · intro out ho
+      exact absurd ho (by simp only [reduceCtorEq, not_false_eq_true])
+    · intro hc
+      exact absurd hc (by simp only [Bool.false_eq_true, not_false_eq_true])
 
 theorem C01_header_file_partial (O : Ops) (fast : Bool) (thr k hashLen mbs readLen : Nat)
     (orig damaged trackD : Bytes) (hlen : damaged.length = orig.length)
@@ -50,12 +66,35 @@ theorem C01_header_file_partial (O : Ops) (fast : Bool) (thr k hashLen mbs readL
         out = orig.take readLen ++ damaged.drop readLen) ∧
     ((correctHeaderFile O fast thr k hashLen mbs readLen damaged trackD).corrupted = true →
       (correctHeaderFile O fast thr k hashLen mbs readLen damaged trackD).complete = true) := by
-  sorry
+  obtain ⟨h1, h2⟩ := correctHeaderFile_ok O fast thr k hashLen mbs readLen orig damaged trackD hlen
+    hcover (fun b hb => hok b hb)
+  cases hany : (assembleHeader k hashLen mbs readLen damaged trackD (damaged.length + 1) 0 0).any
+      (needsRepair O fast) with
+  | true =>
+    rw [h1 hany]
+    refine ⟨fun _ => rfl, ?_, fun _ => rfl⟩
+    intro out ho
+    exact (Option.some.inj ho).symm
+  | false =>
+    obtain ⟨hr, he⟩ := h2 hany
+    rw [hr]
+    refine ⟨fun hne => absurd he hne, ?_, ?_⟩
+    · intro out ho
+      exact absurd ho (by simp only [reduceCtorEq, not_false_eq_true])
+    · intro hc
+      exact absurd hc (by simp only [Bool.false_eq_true, not_false_eq_true])
 
 /-- a run in which every corrupted file is completely repaired exits 0 -/
 theorem C01_exit (rs : List FileResult)
     (hwf : ∀ r ∈ rs, r.complete = true → r.corrupted = true)
     (h : ∀ r ∈ rs, r.corrupted = true → r.complete = true) : exitStatus rs = 0 := by
-  sorry
+  apply exitStatus_of_iff
+  intro r hr
+  cases hc : r.corrupted with
+  | true => exact (h r hr hc).symm
+  | false =>
+    cases hd : r.complete with
+    | false => rfl
+    | true => rw [hwf r hr hd] at hc; exact absurd hc (by simp only [Bool.true_eq_false, not_false_eq_true])
 
 end Pff.Ecc
